@@ -9,6 +9,7 @@ R8.1 [AVN, law, random interpretation with the axiom sqrt(x)^2 = x] for symbolic
 R8.2 [AVN, provenance with opaque callees] the q, qd that spring / positional pipeline.step (and
      init) report are kinematics.inverse(world_to_joint(x, xd)) of exactly the x, xd stored in the
      same returned state, and the stored j, jd, a_p, a_c are those values.
+R8.4 [interpreter event] no executed exact equality test between a computed real quantity and a nonzero constant.
 R8.3 [spec] the scan.py primitives forward / inverse are built on (tree, link_types, _take) meet their
      gather / scatter specification for every topology and index list of the bounded universe
      (shared with C01 R1.2).
@@ -48,13 +49,13 @@ CASES = [
 ]
 
 
-def round_trip(U, links, left_handed, seed0, max_tries=400):
+def round_trip(U, links, left_handed, seed0, max_tries=400, ortho=True):
   for t in range(max_tries):
     avn.field_mode(seed0 * 100003 + t, decide=lambda nm: 1 if nm.kind == 'any' else None)
     avn.FIELD['sqrt_axiom'] = True
     try:
       I = new_interp(U.repo)
-      Mdl = refkin.Model(links, anchors_zero=False, ortho_stacks=True, left_handed=left_handed)
+      Mdl = refkin.Model(links, anchors_zero=False, ortho_stacks=ortho, left_handed=left_handed)
       sysd = Mdl.brax_system()
       x, xd = I.apply(fn(K, 'forward'), [sysd, Mdl.q, Mdl.qd], {})
       j, jd, a_p, a_c = I.apply(fn(K, 'world_to_joint'), [sysd, x, xd], {})
@@ -159,7 +160,28 @@ def r8_2(U, rep):
 
 
 def run(U, rep, tier):
+  del avn.FRAGILE_EQ[:]
   r8_1(U, rep, tier)
   r8_2(U, rep)
+  # the 2- and 3-hinge stacks (middle Euler angle through arccos * sign: positions NOT decided) are still EXECUTED, both
+  # handednesses, so that the decisions taken on the way are seen by R8.4
+  # -- with GENERAL stacked axes: a quantity that is exactly +-1 only for orthonormal axes (a triple product) then has a
+  # generic image, which is how "computed, not discrete" is told apart in the field
+  for links in ([dict(parent=-1, joints=F), dict(parent=0, joints=('h', 'h', 'h'))], [dict(parent=-1, joints=('h', 'h'))],
+                [dict(parent=-1, joints=('s', 's', 'h'))]):
+    for lh, ortho in ((False, False), (True, True)):
+      try:
+        round_trip(U, links, lh, 977, max_tries=60, ortho=ortho)
+      except (AnalysisError, avn.OutOfFragment):
+        pass
+  # R8.4: the round trip holds for "either handedness" and arbitrary orthogonal axes only if no decision on the way is an
+  # EXACT equality test between a computed real quantity and a nonzero constant (a triple product of non-axis-aligned unit
+  # vectors is -0.99999994, not -1): the interpreter records every such test it executes
+  seen = sorted(set(avn.FRAGILE_EQ))
+  f = U.func(K + '.inverse')
+  rep.check(not seen, 'R8.4', 'no exact equality test on a computed real quantity in forward / world_to_joint / inverse',
+            lambda: 'an exact floating-point equality decides a branch of the joint <-> world conversion: `%s` (%s:%d); it holds for '
+            'axis-aligned frames only' % (seen[0][2], seen[0][0], seen[0][1]), where=f.where(),
+            construct='executed `x == c` / `x != c` with c a nonzero constant and x neither a bare symbol nor built from boolean / sign atoms')
   from braxlint.props import c01
   c01.scan_spec(U, rep, tier, rule='R8.3')
